@@ -335,9 +335,26 @@ var relabelTargets = func() []int32 {
 	return ts
 }()
 
+// retiredBefore lists the schema ids the valid prefix of the first producer has
+// retired before its last batch, in order of retirement (the same bookkeeping
+// as runSession's note).
+func retiredBefore(seg []preparedBatch) []string {
+	seen := map[colarspb.ArrowPayloadType]string{}
+	var retired []string
+	for j := 0; j < len(seg)-1; j++ {
+		for _, pl := range seg[j].bar.ArrowPayloads {
+			if last, ok := seen[pl.Type]; ok && last != pl.SchemaId {
+				retired = append(retired, last)
+			}
+			seen[pl.Type] = pl.SchemaId
+		}
+	}
+	return retired
+}
+
 // singleFaults enumerates every single fault applicable to a batch with np
-// payloads.
-func singleFaults(np int) []Fault {
+// payloads after a prefix that retired nretired schema ids.
+func singleFaults(np, nretired int) []Fault {
 	var fs []Fault
 	for i := 0; i < np; i++ {
 		for _, ty := range relabelTargets {
@@ -347,7 +364,14 @@ func singleFaults(np int) []Fault {
 		for _, k := range []string{"drop", "dup", "dup_adjacent", "empty", "unknown_id"} {
 			fs = append(fs, Fault{Kind: k, I: i})
 		}
-		fs = append(fs, Fault{Kind: "stale_id", I: i, J: 0}, Fault{Kind: "stale_id", I: i, J: 1})
+		// every retired id on every payload (at least two tries, so that the
+		// fault is also enumerated - and found inapplicable - without retired ids)
+		for j := 0; j < nretired || j < 2; j++ {
+			if j >= 48 {
+				break
+			}
+			fs = append(fs, Fault{Kind: "stale_id", I: i, J: j})
+		}
 		for j := i + 1; j < np; j++ {
 			fs = append(fs, Fault{Kind: "swap", I: i, J: j})
 		}
@@ -364,7 +388,7 @@ func genFault(t *rapid.T, np int) Fault {
 	case "swap":
 		f.J = rapid.IntRange(0, np-1).Draw(t, "fj")
 	case "stale_id":
-		f.J = rapid.IntRange(0, 3).Draw(t, "fj")
+		f.J = rapid.IntRange(0, 47).Draw(t, "fj")
 	}
 	return f
 }
@@ -499,6 +523,11 @@ func TestC07(t *testing.T) {
 	rapid.Check(t, func(t *rapid.T) {
 		signal := rapid.SampledFrom([]string{Traces, Logs, Metrics}).Draw(t, "signal")
 		depth := rapid.IntRange(0, 3).Draw(t, "depth")
+		if pct(t, "deep", 15) {
+			// a long valid prefix: many schema changes, two-digit schema ids,
+			// many retired readers
+			depth = rapid.IntRange(4, 10).Draw(t, "deepdepth")
+		}
 		fc := &FaultCase{}
 		fc.Segments = append(fc.Segments, Segment{Batches: genSegmentBatches(t, signal, depth+1)})
 		nfollow := rapid.IntRange(0, 2).Draw(t, "nfollow")
@@ -536,7 +565,7 @@ func TestC07(t *testing.T) {
 		}
 		// exhaustive: every single fault on the damaged batch
 		kinds := map[string]int{}
-		for _, f := range singleFaults(np) {
+		for _, f := range singleFaults(np, len(retiredBefore(prep[0]))) {
 			faults := make([][]Fault, len(fc.Segments))
 			faults[0] = []Fault{f}
 			before := st.faultedDecodes
